@@ -124,6 +124,7 @@ package itemsfetcher
 //@   loop 3 invariant finv(f) && 0 <= _k && _k <= len(_range)
 //@   loop 4 modifies f.announces.lru.items[*], f.announces.lru.weight, lel[f.announces.lru.evictList], llen[f.announces.lru.evictList], lidx[*], lown[*], nEvict, gEvictKey, gEvictVal, f.fetching[*], request[*], requestFns[*], allelems("interface{}")
 //@   loop 4 invariant finv(f) && 0 <= _k && _k <= len(_range) && request != nil && requestFns != nil
+//@   loop 4 hint assert [ownlist] _k == iterold(_k) + 1 && forall(p string, has(request, p) && request[p] != iterold(request[p]) ==> len(request[p]) >= 1 && request[p][len(request[p]) - 1] == _range[_k - 1] && lhas(f.announces.lru, _range[_k - 1]) && exists(j, 0, len(unbox(lval(f.announces.lru, _range[_k - 1]), "[]announceData")), unbox(lval(f.announces.lru, _range[_k - 1]), "[]announceData")[j].peer == p && unbox(lval(f.announces.lru, _range[_k - 1]), "[]announceData")[j].fetchItems == requestFns[p]))
 //@   loop 5 modifies notArrivedMap[*]
 //@   loop 5 invariant finv(f) && 0 <= _k && _k <= len(_range) && notArrivedMap != nil
 //@   loop 6 modifies f.announces.lru.items[*], f.announces.lru.weight, lel[f.announces.lru.evictList], llen[f.announces.lru.evictList], lidx[*], lown[*], nEvict, gEvictKey, gEvictVal, f.fetching[*]
